@@ -324,3 +324,64 @@ theorem fact_register_revocation_sequence :
         "vm := revocation.Proof.VerificationMethod.String()", "metadata := &resolver.ResolveMetadata{} ResolveTime: &revocation.Date" ] := ⟨rfl, rfl, rfl⟩
 
 end Nuts.C01.Props
+
+namespace Nuts.C01.Props
+open Nuts.C01
+
+/-- the converse of `registered_revocation_is_authentic`: an authentic, well-formed revocation IS registered when the store works -/
+theorem authentic_revocation_registers (E : Env) (sigOK : Key → Rev → Bool) (store : List Rev) (r : Rev)
+    (ha : Rev.Authentic E sigOK r) (hs : r.subject ≠ "") (ht : r.hasContext = true → r.typeOK = true) (hd : r.date ≠ zeroTime)
+    (hp : r.proofDecodes = true) :
+    registerRevocation E sigOK true store r = .ok (store ++ [r]) := by
+  obtain ⟨hf, hi, hsub, hvm, hpr, k, hk, hsig⟩ := ha
+  unfold registerRevocation
+  rw [if_neg (by simp [hs, hf])]
+  rw [if_neg (by cases hc : r.hasContext <;> simp [ht, hc])]
+  rw [if_neg (by simp [hi])]
+  rw [if_neg (by simp [hd])]
+  rw [if_neg (by simp [hpr])]
+  rw [if_neg (by simp [hsub])]
+  rw [if_neg (by simp [hvm])]
+  rw [hk]
+  simp [hp, hsig]
+
+/-- OWN REVOCATION TAKES EFFECT, end to end (history -> store -> IsRevoked -> Verify): once an authentic, well-formed revocation of a
+    credential id was offered while the store worked, that credential is never reported valid again — whatever else is offered before
+    or after, under any flags and at any validation time -/
+theorem own_revocation_takes_effect (cfg : Cfg) (P : Crypto) (E : Env) (sigOK : Key → Rev → Bool) (before after : List (Rev × Bool))
+    (r : Rev) (ha : Rev.Authentic E sigOK r) (hs : r.subject ≠ "") (ht : r.hasContext = true → r.typeOK = true)
+    (hd : r.date ≠ zeroTime) (hp : r.proofDecodes = true) (au cs : Bool) (at_ : Option Time) (c : Cred) (hid : c.id = some r.subject) :
+    verify cfg P (E.readingStore (findIn (registerAll E sigOK [] (before ++ (r, true) :: after))) r.subject) au cs at_ c ≠ .ok () := by
+  have hmem : r ∈ registerAll E sigOK [] (before ++ (r, true) :: after) := by
+    have hsplit : ∀ (s : List Rev) (l1 l2 : List (Rev × Bool)),
+        registerAll E sigOK s (l1 ++ l2) = registerAll E sigOK (registerAll E sigOK s l1) l2 := by
+      intro s l1
+      induction l1 generalizing s with
+      | nil => intro l2; rfl
+      | cons x xs ih =>
+        intro l2
+        obtain ⟨y, b⟩ := x
+        simp only [List.cons_append, registerAll]
+        cases registerRevocation E sigOK b s y <;> simp [ih]
+    rw [hsplit]
+    generalize registerAll E sigOK [] before = s0
+    simp only [registerAll]
+    rw [authentic_revocation_registers E sigOK s0 r ha hs ht hd hp]
+    exact registered_revocation_is_permanent E sigOK after _ r (by simp)
+  apply any_stored_document_blocks_validity cfg P E _ au cs at_ c r.subject hid
+    (((registerAll E sigOK [] (before ++ (r, true) :: after)).filter (fun x => x.subject == r.subject)).map (fun _ => true))
+  · intro hnil
+    have : r ∈ (registerAll E sigOK [] (before ++ (r, true) :: after)).filter (fun x => x.subject == r.subject) :=
+      List.mem_filter.mpr ⟨hmem, by simp⟩
+    cases hl : (registerAll E sigOK [] (before ++ (r, true) :: after)).filter (fun x => x.subject == r.subject) with
+    | nil => rw [hl] at this; cases this
+    | cons a b => rw [hl] at hnil; simp at hnil
+  · rfl
+end Nuts.C01.Props
+
+namespace Nuts.C01.Props
+open Nuts.C01
+-- non-vacuity of own_revocation_takes_effect: the example revocation is authentic and well-formed, and blocks the example credential
+example : Rev.Authentic exE2 exRevSig exRev := ⟨by decide, by decide, by decide, by decide, rfl, "K1", by decide, by decide⟩
+example : verify exCfg exP (exE2.readingStore (findIn (registerAll exE2 exRevSig [] [(exRev, true)])) "did:x:i#1") false true (some 2000) exC = .err "revoked" := by decide
+end Nuts.C01.Props
